@@ -130,7 +130,7 @@ def generate(ctx):
             cls = "random-shared-molecule-name"
         # work package WPI: str(system) and an index that is neither int nor slice (no random number is drawn for
         # them: every other part of the case is what it was)
-        ops = ops + [["str"], ["o", G.OTHER_KINDS[i % len(G.OTHER_KINDS)]]] + ([["g", 0]] if i % 3 == 0 else [])
+        ops = ops + [["str"], ["o", G.OTHER_KINDS[i % len(G.OTHER_KINDS)]]]
         yield {"kind": "system", "cls": cls, "vel": rng.random() < 0.5, "coordseed": rng.randrange(1 << 30),
                "species": sp_table, "blocks": blocks, "load": load, "ops": ops}
     # ---- refusal stream
